@@ -193,6 +193,9 @@ class VerusFile:
         return reg
 
     def _apply(self, text, rewrites, where):
+        # R0 (global, after the unit's own rules so that their patterns still see the original text): Verus rejects a
+        # wildcard closure parameter (`|_| e`); naming the ignored parameter does not change the meaning.
+        rewrites = list(rewrites) + [R0_WILDCARD_CLOSURE_PARAM]
         for rw in rewrites:
             new = rw(text)
             if new is None:
@@ -578,6 +581,26 @@ def rule(name):
         f.rule = name
         return f
     return deco
+
+
+def _r0_wildcard(text):
+    n = [0]
+    def repl(m):
+        n[0] += 1
+        return "%s_ignored%d%s" % (m.group(1), n[0], m.group(2))
+    return re.sub(r"(\|\s*|,\s*)_(\s*(?::[^|,]*)?(?:\||,))", lambda m: repl(m) if _in_closure_header(text, m.start()) else m.group(0), text)
+
+
+def _in_closure_header(text, pos):
+    # a `_` parameter directly after `|` (first parameter) -- the only shape handled; `, _` inside a closure header is
+    # accepted only if an opening `|` precedes it on the same line without a closing one
+    line_start = text.rfind("\n", 0, pos) + 1
+    seg = text[line_start:pos + 1]
+    return seg.count("|") % 2 == 1
+
+
+_r0_wildcard.rule = "R0-wildcard-closure-param"
+R0_WILDCARD_CLOSURE_PARAM = _r0_wildcard
 
 
 def sub(name, pattern, repl, required=True, flags=0, count=0):
